@@ -178,13 +178,16 @@ where
             *val = Complex::zero();
         }
         // IFFT result, store result and overlap.
-        self.ifft
-            .process_with_scratch(
-                &mut self.output_f,
-                &mut self.output_buf,
-                &mut self.scratch_inv,
-            )
-            .unwrap();
+        // A NaN or infinite input sample leaves a non-zero imaginary part in the first or last bin.
+        // The transform is still performed then, and the non-finite values end up in the output.
+        match self.ifft.process_with_scratch(
+            &mut self.output_f,
+            &mut self.output_buf,
+            &mut self.scratch_inv,
+        ) {
+            Ok(()) | Err(realfft::FftError::InputValues(_, _)) => {}
+            Err(err) => panic!("{}", err),
+        }
         for (n, item) in wave_out.iter_mut().enumerate().take(self.fft_size_out) {
             *item = self.output_buf[n] + overlap[n];
         }
